@@ -240,6 +240,9 @@ def _worker(job):
     elif kind == "trim":
         seed, count = payload
         res.update(trim_cases(seed, count, repo_import, ai_mod, pysam, hdr))
+    elif kind == "projection":
+        seed, count = payload
+        res.update(projection_cases(seed, count, repo_import, pysam, hdr))
     res["evals"] = st["evals"]
     res["classes"] = {"|".join(k): v for k, v in res["classes"].items()}
     return res
@@ -247,6 +250,128 @@ def _worker(job):
 
 def cigar_str(cig):
     return "".join("%d%s" % (l, OPC[o]) for o, l in cig)
+
+
+# ------------------------------------------------------------------ tail detection -> reference coordinate
+def projection_cases(seed, count, repo_import, pysam, hdr):
+    """The real PolyAFinder on records whose tail boundary lies INSIDE the aligned part, with insertions, deletions, =/X runs and introns
+    between the boundary and the end of the alignment.  The read index the finder's window search returns is captured (the search itself is
+    not re-implemented); the reference coordinate it is turned into is compared with the one pysam's get_aligned_pairs gives for that read
+    base: polyA position = 1-based coordinate of the last base before the tail, polyT position = 0-based coordinate of the last base of
+    the head (what the finder returns on plain M alignments)."""
+    pf = repo_import.mod("src.polya_finder")
+    rng = random.Random(seed)
+    out = {"n": 0, "viol": [], "samples": [], "proj_judged": 0, "proj_classes": {}}
+
+    class LoggingFinder(pf.PolyAFinder):
+        def __init__(self, *a, **kw):
+            pf.PolyAFinder.__init__(self, *a, **kw)
+            self.log = []
+
+        def find_polya(self, seq):
+            r = pf.PolyAFinder.find_polya(self, seq)
+            self.log.append(r)
+            return r
+
+    def rand_seq(n):
+        return "".join(rng.choice("CGCGCGAT") for _ in range(n))
+    W = 16
+    for it in range(count):
+        out["n"] += 1
+        side = rng.choice(("A", "T"))
+        # inner part of the alignment, then the stretch near the end that carries the tail boundary: <l>M [op] <r>M, the tail starts k bases
+        # before the end of the aligned part (k may be smaller or larger than r, so the walk may or may not cross the operation)
+        inner = [(0, rng.randint(60, 150)), (3, rng.choice((90, 200, 1500))), (0, rng.randint(40, 120))]
+        l, r_ = rng.randint(8, 40), rng.randint(4, 40)
+        op = rng.choice((None, (1, 1), (1, 2), (1, 5), (2, 1), (2, 3), (3, 150), (8, 2), "eq"))
+        near = [(0, l)] + ([op] if isinstance(op, tuple) else []) + [(0, r_)]
+        if op == "eq":
+            near = [(7, l), (8, 1), (7, r_)]
+        clip = rng.choice((0, 0, 3, 6, 25))
+        k = rng.randint(14, 44)
+        cig = inner + near
+        qlen = sum(n for o, n in cig if o in (0, 1, 7, 8))
+        body = list(rand_seq(qlen))
+        # tail letters over the last k aligned read bases (incl. inserted ones) and the whole clip; one or two non-tail letters sprinkled in
+        for q in range(max(0, qlen - k), qlen):
+            body[q] = "A"
+        for _ in range(rng.choice((0, 0, 1))):
+            body[rng.randint(max(0, qlen - k + 3), qlen - 1)] = "C"
+        if qlen - k - 1 >= 0:
+            body[qlen - k - 1] = "C"
+        seq = "".join(body) + "A" * clip
+        cig2 = cig + ([(4, clip)] if clip else [])
+        if side == "T":
+            # mirror image: reverse the operations, reverse-complement the sequence
+            cig2 = cig2[::-1]
+            seq = seq[::-1].translate(str.maketrans("ACGT", "TGCA"))
+        a = pysam.AlignedSegment(hdr)
+        a.query_name = "p%d" % it
+        a.reference_id = 0
+        a.reference_start = rng.randint(100, 100000)
+        a.cigartuples = cig2
+        a.query_sequence = seq
+        finder = LoggingFinder(W, 0.75)
+        try:
+            info = finder.detect_polya(a)
+        except Exception as e:
+            out["viol"].append(("tail-detection-exception", cigar_str(cig2), a.reference_start, repr(e), ""))
+            continue
+        if len(finder.log) != 4:
+            continue
+        pairs = {q: r for q, r in a.get_aligned_pairs() if q is not None}
+        qs, qe = a.query_alignment_start, a.query_alignment_end       # aligned part of the read, 0-based, end exclusive
+        # order of the four searches: external polyA, external polyT, internal polyA, internal polyT
+        for idx, (nm, frm, to) in enumerate((("external_polya_pos", 2, 2 * W), ("external_polyt_pos", 2, 2 * W),
+                                             ("internal_polya_pos", 4 * W, 2), ("internal_polyt_pos", 4 * W, 2))):
+            got = getattr(info, nm)
+            j = finder.log[idx]
+            if got == -1 or j == -1:
+                continue
+            if "polya" in nm:
+                P = max(0, qe - frm) + j                 # read index of the first tail base
+                if P >= qe:
+                    exp = a.reference_end + (P - qe)
+                    cls = "tail-starts-in-the-clip"
+                else:
+                    if P - 1 < qs or pairs.get(P - 1) is None:
+                        continue                         # the base before the tail is an inserted base: no coordinate of its own
+                    exp = pairs[P - 1] + 1
+                    cls = "tail-starts-in-the-aligned-part"
+            else:
+                to_check_end = min(len(seq), qs + frm + 1)
+                Q = to_check_end - j - 1                 # read index of the last head base
+                if Q <= qs:
+                    exp = max(1, a.reference_start - (qs - Q))
+                    cls = "head-ends-in-the-clip"
+                else:
+                    if Q >= qe or pairs.get(Q) is None:
+                        continue
+                    exp = max(1, pairs[Q])
+                    cls = "head-ends-in-the-aligned-part"
+            crossed = "plain"
+            if cls.endswith("aligned-part"):
+                lo_, hi_ = (P - 1, qe) if "polya" in nm else (qs, Q + 1)
+                ops = set()
+                qi = qs
+                for o, n in a.cigartuples:
+                    if o in (0, 7, 8, 1):
+                        if qi < hi_ and qi + n > lo_ and o in (1, 8):
+                            ops.add("IX"[o == 8])
+                        qi += n
+                    elif o in (2, 3):
+                        if lo_ < qi < hi_:
+                            ops.add("DN"[o == 3])
+                crossed = "".join(sorted(ops)) or "plain"
+            key = "%s/%s/%s" % (nm, cls, crossed)
+            out["proj_classes"][key] = out["proj_classes"].get(key, 0) + 1
+            out["proj_judged"] += 1
+            if got != exp:
+                out["viol"].append(("tail-position-not-the-coordinate-of-its-read-base:%s:%s" % (nm.split("_")[0], crossed), cigar_str(cig2), a.reference_start,
+                                    "%s = %d for the read base at index %d" % (nm, exp, (P - 1) if "polya" in nm else Q), "%d" % got))
+        if len(out["samples"]) < 2:
+            out["samples"].append({"cigar": cigar_str(cig2), "positions": [getattr(info, nm_) for nm_ in POS_NAMES]})
+    return out
 
 
 # ------------------------------------------------------------------ tail trimming
@@ -548,9 +673,13 @@ def run(chk, scratch):
     ntrim = 400000 if thorough else 40000
     for i in range(16):
         jobs.append(("trim", (chk.seed * 7919 + i, ntrim // 16)))
+    nproj = 160000 if thorough else 16000
+    for i in range(16):
+        jobs.append(("projection", (chk.seed * 104729 + i, nproj // 16)))
     total_evals = 0
     classes = {}
     trim_classes = {}
+    proj_classes = {}
     ai = 0
     trimmed = 0
     with ProcessPoolExecutor(max_workers=16) as ex:
@@ -567,6 +696,9 @@ def run(chk, scratch):
                 classes[k] = classes.get(k, 0) + v
             for k, v in res.get("trim_classes", {}).items():
                 trim_classes[k] = trim_classes.get(k, 0) + v
+            for k, v in res.get("proj_classes", {}).items():
+                proj_classes[k] = proj_classes.get(k, 0) + v
+            chk.count("tail_positions_compared_with_aligned_pairs", res.get("proj_judged", 0))
             for s in res.get("samples", []):
                 chk.sample(s, limit=8)
             for v in res["viol"]:
@@ -622,9 +754,11 @@ def run(chk, scratch):
             elif r["rc"] != 0:
                 chk.violation("alignment-notation:run-failed:" + name, "pipeline run on the %s notation failed: %s" % (name, pipeline.fail_text(r)), {"variant": name})
     chk.extra.update({"contract_evaluations": total_evals, "alignmentinfo_objects": ai, "cigar_pattern_classes": classes,
-                      "trim_classes": trim_classes, "reads_with_trimmed_exons": trimmed,
+                      "trim_classes": trim_classes, "reads_with_trimmed_exons": trimmed, "tail_projection_classes": proj_classes,
                       "exhaustive": True, "max_core_ops": max_ops, "enumerated_cores": len(cores)})
+    chk.inconclusive_if(not any("aligned-part" in k and not k.endswith("plain") for k in proj_classes), "no tail boundary behind an insertion / deletion / intron was judged")
     chk.assumptions = ["oracle = independent CIGAR walk in vlib/checks/c16.py", "pysam builds the records",
+                       "tail positions: the read index returned by the finder's own window search is projected with pysam's get_aligned_pairs (judged when that read base is an aligned base)",
                        "N-delimited segments without an aligned base yield no exon (deletion-only segments may be reported or dropped); all other exons must be exact"]
     chk.inconclusive_if(total_evals == 0, "contract on get_read_blocks never evaluated")
     chk.inconclusive_if(trimmed == 0, "no read had terminal exons trimmed")
